@@ -1,5 +1,6 @@
 import Driver.Pure
 import Driver.Store
+import Driver.Smtp
 open Driver
 
 /-
@@ -10,5 +11,6 @@ def main (args : List String) : IO UInt32 := do
   match args with
   | [] | ["pure"] => runLoop (fun (_ : Unit) toks => ((), (pureHandler toks).getD "bad-op")) ()
   | ["store"] => runLoop Driver.StoreMode.step Driver.StoreMode.init
+  | ["smtp"] => runLoop Driver.SmtpMode.step ()
   | _ => IO.eprintln s!"unknown mode {args}"; return 2
   return 0
